@@ -82,16 +82,25 @@ func (x *Exec) sliceSort(elem Sort) Sort {
 	k := sortKey(elem)
 	name := "Slc_" + k
 	if !x.ctx.declared[name] {
-		x.ctx.declRaw(name, fmt.Sprintf("(declare-datatypes ((%s 0)) (((mk_%s (elems_%s (Array Int %s)) (len_%s Int) (nn_%s Bool)))))", name, name, k, elem, k, k))
+		x.ctx.declRaw(name, fmt.Sprintf("(declare-datatypes ((%s 0)) (((mk_%s (elems_%s (Array Int %s)) (len_%s Int) (nn_%s Bool) (arr_%s Int)))))", name, name, k, elem, k, k, k))
 	}
 	x.sliceElems[Sort(name)] = elem
 	return Sort(name)
 }
 
-func (x *Exec) mkSlice(elem Sort, elems, ln, nn Term) Term {
+// mkSlice builds a slice value. arr is the identity of the backing array (0: none that could be shared
+// with another slice value -- nil slices and the arrays the compiler allocates for variadic calls); it
+// is tracked only to answer "do these two slice values share storage" (shares(a, b) in contracts);
+// element values keep value semantics.
+func (x *Exec) mkSlice(elem Sort, elems, ln, nn, arr Term) Term {
 	s := x.sliceSort(elem)
 	x.sliceElems[s] = elem
-	return mk(s, "mk_"+string(s), elems, ln, nn)
+	return mk(s, "mk_"+string(s), elems, ln, nn, arr)
+}
+
+func (x *Exec) sliceArr(sl Term) Term {
+	elem := x.elemOfSliceSort(sl.Sort)
+	return mk(SInt, "arr_"+sortKey(elem), sl)
 }
 
 func (x *Exec) sliceElemsOf(sl Term) Term {
@@ -205,7 +214,7 @@ func (x *Exec) zeroOfSort(s Sort, t types.Type) Term {
 		return Term{"0.0", SReal}
 	}
 	if e, ok := x.sliceElems[s]; ok {
-		return x.mkSlice(e, x.constArray(arraySort(SInt, e), x.zeroOfSort(e, elemTypeOf(t))), intLit(0), tFalse)
+		return x.mkSlice(e, x.constArray(arraySort(SInt, e), x.zeroOfSort(e, elemTypeOf(t))), intLit(0), tFalse, intLit(0))
 	}
 	if t != nil {
 		if _, ok := t.Underlying().(*types.Struct); ok {
@@ -218,7 +227,7 @@ func (x *Exec) zeroOfSort(s Sort, t types.Type) Term {
 		}
 		if sl, ok := t.Underlying().(*types.Slice); ok {
 			e := x.sortOf(sl.Elem())
-			return x.mkSlice(e, x.constArray(arraySort(SInt, e), x.zero(sl.Elem())), intLit(0), tFalse)
+			return x.mkSlice(e, x.constArray(arraySort(SInt, e), x.zero(sl.Elem())), intLit(0), tFalse, intLit(0))
 		}
 	}
 	// unknown structured sort: a fixed constant per sort
